@@ -1735,7 +1735,7 @@ class ExponentialBosonicEnvironment(BosonicEnvironment):
                 "Fermionic exponent passed to exponential bosonic environment."
             )
 
-        exponents = exponents or []
+        exponents = list(exponents or [])
         if lists_provided:
             exponents.extend(self._make_exponent("R", ck, vk, tag=tag)
                              for ck, vk in zip(ck_real, vk_real))
@@ -2641,7 +2641,7 @@ class ExponentialFermionicEnvironment(FermionicEnvironment):
                 "Bosonic exponent passed to exponential fermionic environment."
             )
 
-        self.exponents = exponents or []
+        self.exponents = list(exponents or [])
         if lists_provided:
             self.exponents.extend(CFExponent("+", ck, vk, tag=tag)
                                   for ck, vk in zip(ck_plus, vk_plus))
